@@ -258,6 +258,8 @@ def run_wire(P, res, payload):
         res.cls('listing on a used connection', nontrivial=True)
         if bad:
             res.violations.append({'what': bad, 'input': rec})
+        else:
+            res.xval_path('used %d' % nprior, replay, lambda: rec)
         if len(res.samples) < 1:
             res.samples.append({'cmd': cmd, 'earlier replies': nprior, 'listing': listing.decode()})
         res.take_stats(ctx.stats); ctx.stats.__init__()
@@ -309,6 +311,8 @@ def run_instance(payload):
         res.cls('listing with %d songs' % min(len(want), 2), nontrivial=len(want) > 0)
         if bad:
             res.violations.append({'what': bad, 'input': rec()})
+        else:
+            res.xval_path('listing %d' % len(want), replay, rec, )
         if len(res.samples) < 1:
             res.samples.append({'cmd': cmd, 'listing': wire_of(ctx.model(), I._fields).decode('latin1')})
         res.take_stats(ctx.stats); ctx.stats.__init__()
